@@ -100,6 +100,9 @@ pub enum Op {
     TaSign { slot: usize, tamper: u8 },
     /// (C15) the proxy is given the pooled response `slot`
     TaDeliver { slot: usize, tamper: u8 },
+    /// (C15) the signer is initialised again with the same TA key and the
+    /// proxy is told about it
+    TaReinit,
 }
 
 impl std::fmt::Display for Op {
@@ -418,7 +421,7 @@ impl World {
                 OpOutcome { ok: true, err: None, tasks: vec![], fatal: None }
             }
             Op::Restart => OpOutcome::from_res(self.restart()),
-            Op::TaMake | Op::TaSign { .. } | Op::TaDeliver { .. } => OpOutcome {
+            Op::TaMake | Op::TaSign { .. } | Op::TaDeliver { .. } | Op::TaReinit => OpOutcome {
                 ok: false,
                 err: Some("operation is executed by the C15 model".into()),
                 tasks: vec![],
